@@ -15,7 +15,8 @@ REPO = os.environ.get('PYVC_REPO', '/repo')
 def use_repo():
     if REPO not in sys.path[:1]:
         sys.path.insert(0, REPO)
-    import logging
+    import logging, warnings
+    warnings.filterwarnings('ignore')
     logging.disable(logging.CRITICAL)
 
 
